@@ -3,5 +3,6 @@ EXTENDS Timers
 EffectsMC2 == {<<"none">>, <<"unplan", 1>>, <<"unplan", 2>>, <<"plan", 1, 0, 2>>, <<"plan", 2, 0, 1>>, <<"plan", 1, 1, 1>>}
 EffectsMC3 == EffectsMC2 \cup {<<"unplan", 3>>, <<"plan", 3, 0, 2>>}
 EffectsG == {<<"none">>, <<"unplan", 1>>, <<"plan", 1, 0, 2>>, <<"plan", 2, 0, 1>>}
+EffectsSim == EffectsMC3 \cup {<<"unplan", 4>>, <<"plan", 4, 0, 3>>, <<"plan", 2, 1, 2>>, <<"plan", 4, 2, 1>>}
 EffectsT3 == {<<"none">>, <<"unplan", 3>>, <<"plan", 1, 0, 2>>, <<"plan", 3, 0, 1>>}
 =============================================================================
